@@ -463,22 +463,14 @@ def eval_sweeper(case):
                         fgot = np.asarray(fm.impl + fm.expl if pb['imex'] else fm).reshape(-1)
                         ftol = C_E * EPS * (normA * max(float(np.abs(unow[m]).max()), 1e-300) + float(np.abs(fref).max())) + 5e-324
                         fr = float(np.abs(fgot - fref).max()) / ftol if np.all(np.isfinite(unow[m])) else 0.0
-                        worst('f_evals', fr)
-                        if not fr <= 1 and bad is None:
-                            bad = name
-                            viol('f_not_updated', {'input': name, 'node': m + 1, 'ratio err/tol': fr})
+                        # the property does not speak about f: outcome classes only (docstring: update_f_evals=True re-evaluates)
+                        res['classes']['update_f_evals=True:f_consistent_with_u' if fr <= 1 else 'update_f_evals=True:f_NOT_consistent_with_u'] += 1
                 else:
-                    for m in range(M):
-                        fm = lvl.f[m + 1]
-                        fgot = np.array(fm.impl + fm.expl if pb['imex'] else fm)
-                        if not np.array_equal(fgot, f_before[m]) and bad is None:
-                            bad = name
-                            viol('f_changed_without_update_f_evals', {'input': name, 'node': m + 1})
+                    same = all(np.array_equal(np.array(lvl.f[m + 1].impl + lvl.f[m + 1].expl if pb['imex'] else lvl.f[m + 1]), f_before[m], equal_nan=True) for m in range(M))
+                    res['classes']['update_f_evals=False:f_untouched' if same else 'update_f_evals=False:f_CHANGED'] += 1
                 if ignore_ic:
-                    for m in range(M):
-                        if not np.array_equal(np.array(lvl.u[m + 1]), u_before[m]) and bad is None:
-                            bad = name
-                            viol('u_changed_with_ignore_ic', {'input': name, 'node': m + 1})
+                    same = all(np.array_equal(np.array(lvl.u[m + 1]), u_before[m]) for m in range(M))
+                    res['classes']['ignore_ic=True:u_untouched' if same else 'ignore_ic=True:u_CHANGED'] += 1
             worst('solve_map', worst_map)
             if bad == 'raised':
                 continue
@@ -585,7 +577,7 @@ def eval_iteration(case):
     rank = (L, M, N, -math.log10(alpha), avg)
 
     def viol(kind, detail):
-        res['viol'].append((dict(base, kind=kind), detail, dict(case), ('iteration', kind, case['spec']['key']), rank))
+        res['viol'].append((dict(base, kind=kind), detail, dict(case), ('iteration', kind, 'imex' if pb['imex'] else 'implicit'), rank))
 
     d = O.factors(L, alpha)
     singular = bool(np.any(1.0 + d == 0))
@@ -699,7 +691,7 @@ def eval_run(case):
     rank = (L, nblocks, M, N, -math.log10(alpha), avg)
 
     def viol(kind, detail):
-        res['viol'].append((dict(base, kind=kind), detail, dict(case), ('run', kind, case['spec']['key']), rank))
+        res['viol'].append((dict(base, kind=kind), detail, dict(case), ('run', kind, 'imex' if pb['imex'] else 'implicit'), rank))
 
     d = O.factors(L, alpha)
     singular = bool(np.any(1.0 + d == 0))
